@@ -148,6 +148,7 @@ class HSSP(ServerSetProvider):
     self.closed = 0
     self.notifier = None
     self.delivered_before_init = 0
+    self.load_attempts = 0
 
   @property
   def endpoint_name(self):
@@ -166,7 +167,21 @@ class HSSP(ServerSetProvider):
       fn(mk_server(port, self.endpoint_name))
 
   def GetServers(self):
+    pf = self.run.cfg.get('provider_fail')
+    if pf and self.load_attempts < pf[1]:
+      # the provider's first loads fail (ZooKeeper not reachable yet): the balancer must retry
+      self.load_attempts += 1
+      self.run.flags.add('provider_load_failed_first')
+      if pf[0] == 'timeout':
+        raise gevent.Timeout(1.0)       # what kazoo's gevent handler raises; not an Exception subclass
+      raise IOError('server set not reachable')
     snap = [mk_server(p, self.endpoint_name) for p in self.members]
+    dup = self.run.cfg.get('initial_dup')
+    if dup and snap:
+      # the same endpoint listed twice (tcp://a:1,b:1,a:1, or a re-registration before the old znode expired):
+      # equal but distinct member objects
+      snap.insert(dup % (len(snap) + 1), mk_server(self.members[dup % len(self.members)], self.endpoint_name))
+      self.run.flags.add('endpoint_listed_twice')
     if self.delay:
       gevent.sleep(self.delay)
     return snap
